@@ -741,14 +741,33 @@ func (c *c07ctx) ruleR5() {
 				msg = fmt.Sprintf("return at %s is reachable having awaited %s acknowledges after a flush request (want exactly 1): Flush/Close can return before accepted data are in the file, and a late acknowledge desynchronises later calls", p.InstrPos(e.Instr), e.Count)
 			}
 		}
-		// the receive must come after the request
-		Instrs(fn, func(in ssa.Instruction) {
-			if u, ok := in.(*ssa.UnOp); ok && u.Op == token.ARROW && c.awChan(u.X) == c.ackField {
-				if !InstrDominates(req, in) {
-					good = false
+		// the receive must come after a request on every way to it (the request may be made in
+		// either arm of a branch: a send, or the close that makes the last request)
+		isReq := func(in ssa.Instruction) bool {
+			if s, ok := in.(*ssa.Send); ok && c.awChan(s.Chan) == c.reqField {
+				return true
+			}
+			if sel, ok := in.(*ssa.Select); ok {
+				for _, st := range sel.States {
+					if st.Dir == types.SendOnly && c.awChan(st.Chan) == c.reqField {
+						return true
+					}
 				}
 			}
-		})
+			if cc := CallOf(in); cc != nil {
+				if b, ok := cc.Value.(*ssa.Builtin); ok && b.Name() == "close" && c.awChan(cc.Args[0]) == c.reqField {
+					return true
+				}
+			}
+			return false
+		}
+		isAck := func(in ssa.Instruction) bool {
+			u, ok := in.(*ssa.UnOp)
+			return ok && u.Op == token.ARROW && c.awChan(u.X) == c.ackField
+		}
+		if len(ReachAvoiding(fn, nil, isReq, isAck)) > 0 {
+			good = false
+		}
 		r.Check(good, "C07.R5", FuncName(fn)+" waits for the acknowledge", p.Pos(fn.Pos()), "request, then exactly one acknowledge receive on every path", msg)
 	}
 	// (e) request and acknowledge channels are rendezvous (unbuffered) channels
@@ -1184,10 +1203,87 @@ func (c *c07ctx) ruleR7(fn *ssa.Function) {
 
 // ---- R6 -------------------------------------------------------------------------
 
+// closerUnder: calling fn (a function of the asynchronous writer's package) with the given constant
+// arguments closes the flush-request channel on every way to a return: fn holds the close itself,
+// or calls - on every way - a function of the package that does.  Branches are decided by constant
+// propagation from env (`flushAndWait(final bool)` called with true).
+func (c *c07ctx) closerUnder(fn *ssa.Function, env map[ssa.Value]lat, depth int) bool {
+	if fn == nil || fn.Blocks == nil || depth > 3 {
+		return false
+	}
+	res := sccp(fn, env)
+	isClose := func(in ssa.Instruction) bool {
+		cc := CallOf(in)
+		if cc == nil {
+			return false
+		}
+		if b, ok := cc.Value.(*ssa.Builtin); ok && b.Name() == "close" && c.awChan(cc.Args[0]) == c.reqField {
+			return true
+		}
+		if _, isGo := in.(*ssa.Go); isGo {
+			return false
+		}
+		if callee := cc.StaticCallee(); callee != nil && callee != fn && fnPkg(callee) == fnPkg(c.loopFn) {
+			return c.closerUnder(callee, constArgEnv(callee, cc), depth+1)
+		}
+		return false
+	}
+	// walk the executable edges from the entry; a block holding a closing instruction ends the walk
+	closing := map[*ssa.BasicBlock]bool{}
+	any := false
+	for _, b := range fn.Blocks {
+		for _, in := range b.Instrs {
+			if isClose(in) {
+				closing[b] = true
+				any = true
+			}
+		}
+	}
+	if !any {
+		return false
+	}
+	seen := map[*ssa.BasicBlock]bool{}
+	work := []*ssa.BasicBlock{fn.Blocks[0]}
+	for len(work) > 0 {
+		b := work[len(work)-1]
+		work = work[:len(work)-1]
+		if seen[b] || b == fn.Recover {
+			continue
+		}
+		seen[b] = true
+		if closing[b] {
+			continue
+		}
+		if _, isRet := b.Instrs[len(b.Instrs)-1].(*ssa.Return); isRet {
+			return false // a return reached without the close
+		}
+		for _, sc := range b.Succs {
+			if res.EdgeExecutable(b, sc) {
+				work = append(work, sc)
+			}
+		}
+	}
+	return true
+}
+
+// constArgEnv: the constant arguments of a call, as an environment for the callee's parameters.
+func constArgEnv(callee *ssa.Function, cc *ssa.CallCommon) map[ssa.Value]lat {
+	env := map[ssa.Value]lat{}
+	for i, prm := range callee.Params {
+		if i >= len(cc.Args) {
+			break
+		}
+		if k, ok := cc.Args[i].(*ssa.Const); ok && k.Value != nil {
+			env[prm] = lat{k: latConst, c: k.Value}
+		}
+	}
+	return env
+}
+
 func (c *c07ctx) ruleR6() {
 	p, r := c.p, c.r
-	var asyncClose *ssa.Function
-	// the async Close: function of the package that closes the request channel
+	// the async close: some function of the package closes the request channel
+	anyClose := false
 	for _, fn := range p.LibFuncs() {
 		if fnPkg(fn) != fnPkg(c.loopFn) {
 			continue
@@ -1195,14 +1291,89 @@ func (c *c07ctx) ruleR6() {
 		Instrs(fn, func(in ssa.Instruction) {
 			if cc := CallOf(in); cc != nil {
 				if b, ok := cc.Value.(*ssa.Builtin); ok && b.Name() == "close" && c.awChan(cc.Args[0]) == c.reqField {
-					asyncClose = fn
+					anyClose = true
 				}
 			}
 		})
 	}
-	if asyncClose == nil {
+	if !anyClose {
 		r.Bad("C07.R6", "async close", "-", "no function closes the flush-request channel: the consumer goroutine never flushes its tail and never exits")
 		return
+	}
+	isAwPtr := func(t types.Type) bool {
+		pt, ok := t.(*types.Pointer)
+		return ok && pt.Elem() == types.Type(c.awType)
+	}
+	// onlyNilGuarded: the call at a is conditional on nothing but the writer handle being non-nil
+	onlyNilGuarded := func(a ssa.Instruction) (bool, string) {
+		fn := a.Parent()
+		b := a.Block()
+		for b != nil && b != fn.Blocks[0] {
+			idom := b.Idom()
+			if idom == nil {
+				break
+			}
+			if iff, ok := idom.Instrs[len(idom.Instrs)-1].(*ssa.If); ok && !postDominatesSimple(b, idom) {
+				cond, isB := iff.Cond.(*ssa.BinOp)
+				okGuard := false
+				if isB && (cond.Op == token.NEQ || cond.Op == token.EQL) {
+					if cst, isC := cond.Y.(*ssa.Const); isC && cst.Value == nil && isAwPtr(cond.X.Type()) {
+						okGuard = true
+					}
+				}
+				if !okGuard {
+					return false, fmt.Sprintf("closing the asynchronous writer at %s is conditional on something other than the handle being non-nil", p.InstrPos(a))
+				}
+			}
+			b = idom
+		}
+		return true, ""
+	}
+	isFileClose := func(in ssa.Instruction) bool {
+		if !IsCallTo(in, "(*os.File).Close") {
+			return false
+		}
+		if _, f, _, ok := FieldOf(CallOf(in).Args[0]); ok && f != "" {
+			return true
+		}
+		_, isPrm := CallOf(in).Args[0].(*ssa.Parameter)
+		return isPrm // a helper that is handed the file and its writer
+	}
+	// isAC: the instruction closes the asynchronous writer: a call into the package that closes the
+	// request channel (under its constant arguments), or a call of a module helper that does nothing
+	// else with the file and closes the writer under a nil test of the handle only
+	var isAC func(in ssa.Instruction, depth int) bool
+	isAC = func(in ssa.Instruction, depth int) bool {
+		cc := CallOf(in)
+		if cc == nil {
+			return false
+		}
+		if _, isGo := in.(*ssa.Go); isGo {
+			return false
+		}
+		callee := cc.StaticCallee()
+		if callee == nil || callee.Blocks == nil {
+			return false
+		}
+		if fnPkg(callee) == fnPkg(c.loopFn) {
+			return c.closerUnder(callee, constArgEnv(callee, cc), 0)
+		}
+		if depth >= 2 || !isModuleFn(callee) {
+			return false
+		}
+		n, good := 0, true
+		Instrs(callee, func(x ssa.Instruction) {
+			if isFileClose(x) {
+				good = false
+			}
+			if isAC(x, depth+1) {
+				n++
+				if okG, _ := onlyNilGuarded(x); !okG {
+					good = false
+				}
+			}
+		})
+		return n > 0 && good
 	}
 	for _, fn := range p.LibFuncs() {
 		if fnPkg(fn) == fnPkg(c.loopFn) {
@@ -1210,14 +1381,10 @@ func (c *c07ctx) ruleR6() {
 		}
 		var fc, ac []ssa.Instruction
 		Instrs(fn, func(in ssa.Instruction) {
-			if IsCallTo(in, "(*os.File).Close") {
-				if _, f, _, ok := FieldOf(CallOf(in).Args[0]); ok && f != "" {
-					fc = append(fc, in)
-				} else if _, isPrm := CallOf(in).Args[0].(*ssa.Parameter); isPrm {
-					fc = append(fc, in) // a helper that is handed the file and its writer
-				}
+			if isFileClose(in) {
+				fc = append(fc, in)
 			}
-			if cc := CallOf(in); cc != nil && cc.StaticCallee() == asyncClose {
+			if isAC(in, 0) {
 				ac = append(ac, in)
 			}
 		})
@@ -1232,13 +1399,13 @@ func (c *c07ctx) ruleR6() {
 		}
 		owns := false
 		for _, prm := range fn.Params {
-			if pt, ok := prm.Type().(*types.Pointer); ok && pt.Elem() == types.Type(c.awType) {
+			if isAwPtr(prm.Type()) {
 				owns = true
 			}
 		}
 		if st != nil {
 			for i := 0; i < st.NumFields(); i++ {
-				if pt, ok := st.Field(i).Type().(*types.Pointer); ok && pt.Elem() == types.Type(c.awType) {
+				if isAwPtr(st.Field(i).Type()) {
 					owns = true
 				}
 			}
@@ -1264,28 +1431,9 @@ func (c *c07ctx) ruleR6() {
 		}
 		// the async close may only be guarded by a nil test of the writer handle
 		for _, a := range ac {
-			b := a.Block()
-			for b != nil && b != fn.Blocks[0] {
-				idom := b.Idom()
-				if idom == nil {
-					break
-				}
-				if iff, ok := idom.Instrs[len(idom.Instrs)-1].(*ssa.If); ok && !postDominatesSimple(b, idom) {
-					cond, isB := iff.Cond.(*ssa.BinOp)
-					okGuard := false
-					if isB && (cond.Op == token.NEQ || cond.Op == token.EQL) {
-						if cst, isC := cond.Y.(*ssa.Const); isC && cst.Value == nil {
-							if pt, isP := cond.X.Type().(*types.Pointer); isP && pt.Elem() == types.Type(c.awType) {
-								okGuard = true
-							}
-						}
-					}
-					if !okGuard {
-						good = false
-						msg = fmt.Sprintf("closing the asynchronous writer at %s is conditional on something other than the handle being non-nil", p.InstrPos(a))
-					}
-				}
-				b = idom
+			if okG, m := onlyNilGuarded(a); !okG {
+				good = false
+				msg = m
 			}
 		}
 		r.Check(good, "C07.R6", key, p.Pos(fn.Pos()), "asynchronous writer closed (drained, flushed) before the file", msg)
